@@ -8,4 +8,6 @@ def regenerate():
     changed = []
     if common.write_if_changed(os.path.join(common.GEN, "Inventory.v"), tables.inventory_v(common.REPO)):
         changed.append("Inventory.v")
+    if common.write_if_changed(os.path.join(common.GEN, "Tables.v"), tables.tables_v(common.REPO)):
+        changed.append("Tables.v")
     return changed
